@@ -880,9 +880,24 @@ int
 ldb_lock_file(const char *filename, ldb_filelock_t **lock) {
   ldb_fileid_t id;
   struct stat st;
-  int fd, rc;
+  int fd = -1;
+  int rc;
 
   ldb_mutex_lock(&file_mutex);
+
+  /* Check the in-process table before opening the file: POSIX record
+     locks are dropped as soon as the process closes *any* descriptor
+     for the file, so opening and closing a second descriptor here
+     would silently release a lock we already hold. */
+  if (stat(filename, &st) == 0) {
+    id.dev = st.st_dev;
+    id.ino = st.st_ino;
+
+    if (rb_set_has(&file_set, &id)) {
+      errno = ENOLCK;
+      goto fail;
+    }
+  }
 
   fd = ldb_open(filename, O_RDWR | O_CREAT, 0644);
 
@@ -891,11 +906,6 @@ ldb_lock_file(const char *filename, ldb_filelock_t **lock) {
 
   id.dev = st.st_dev;
   id.ino = st.st_ino;
-
-  if (rb_set_has(&file_set, &id)) {
-    errno = ENOLCK;
-    goto fail;
-  }
 
   if (ldb_flock(fd, 1) != 0)
     goto fail;
